@@ -72,6 +72,16 @@ CLAIMED = {
          "Dialer (Dial, DialLeader, LookupPartitions, Reader) and Transport (Client.Metadata, Client.Produce, Writer) paths with PLAIN and SCRAM-SHA-256/512, handshake v0 (raw tokens) and v1 (framed), credentials needing escaping and SASLprep, and failures injected at every step (unsupported mechanism, error codes, sabotaged SCRAM server messages, closes and cuts): nothing but ApiVersions/SaslHandshake/SaslAuthenticate may arrive before the broker accepted, failures must fail the dial and close the connection with nothing sent afterwards, and exchanges complete iff the credentials are right.",
          "trusted: the reference SASL server (xdg-go/scram server side, harness PBKDF2, hand-written SASLprep atom table); SASLprep-prohibited names are not judged",
          "DESIGN.md section 5 C18"),
+ "C06": ("exploration",
+         "runtime monitor: payload-tagged exchanges - every call asks for something only it asks for and the fake broker's answer is an injective function of the request; each returned call is checked against the answer to its own request",
+         "2-16 goroutines share one kafka.Conn (ReadOffset with unique timestamps, ReadPartitions of topics with distinct partition counts, ReadBatch whose records spell their offsets, WriteMessages with unique values, deadline changes and expiry) and 2-64 goroutines share a Transport (ListOffsets, FindCoordinator, Produce, Fetch with random cancellation, deadlines, cuts mid-response, 5 ms idle timeout), with prompt, delayed and (Conn only, counted separately) reordered answers; hooks widen and count the hand-over windows (foreign response at the head of the stream, connection release after a round trip).",
+         "trusted: the script rewriting answers as a function of the request; overlap of calls is measured on the logical clock and cases without overlap are not counted as non-trivial",
+         "DESIGN.md section 5 C06"),
+ "C20": ("exploration",
+         "runtime monitor in child processes (RLIMIT_AS 4 GiB, one decode at a time): process liveness, recovered panics, allocation accounting (runtime/metrics heap allocs, confirmed by an exact second decode) and outcome class for systematically mutated well-formed response frames through protocol.ReadResponse and through kafka.Client over the fake network",
+         "For every response type and version (reference-encoded with a field map where a schema exists, library-encoded otherwise) every length/count field - frame size, string/bytes/array lengths fixed and compact, tagged-field counts and sizes, record-set size, batch length, message size, wrapper value length, record count and varint lengths - is set to -1, -2, 0, len-1, len+1, remaining+1, 2^15-1, 2^31-1, -2^31 and for varints 2^31, 2^32, 2^63, 2^64-1 and an unterminated varint; the decode must end as an error or a message, without panic or process death, allocating at most 1 MiB + 64 x frame length. CRC-covered fields with a recomputed CRC are informational.",
+         "trusted: allocation figures of the Go runtime in a single-threaded child; a first-run excess not reproduced by the immediate exact re-decode (cold pools) is not reported; decodes that do not return within 10 s are inconclusive",
+         "DESIGN.md section 5 C20"),
 }
 
 REASON_NOT_BUILT = "check not built yet in this round (design in DESIGN.md section 5); no claim is made"
